@@ -12,7 +12,7 @@ from ..world import World, inventory, read_through, contents_of, inv_brief
 
 ID = "C02"
 LEVEL = "exploration"
-BUDGET = {"quick": {"n": 600, "wall_s": 400}, "thorough": {"n": 30000, "wall_s": 3300}}
+BUDGET = {"quick": {"n": 1500, "wall_s": 400}, "thorough": {"n": 30000, "wall_s": 3300}}
 RULE = ("per case: world of 1..5 duplicate families over 1..3 roots with hard-link sets, symlinks (reported with -S "
         "in ~30%), name alphabets {plain, whitespace, quotes/$, control chars incl. newline, glob chars, non-ASCII, "
         "invalid UTF-8}; group options {--isolate, -S, -H, --rf-over k, --min 0}; report format text|json; one of 5 "
